@@ -112,7 +112,7 @@ class C05(Property):
             if i >= len(wfgen.CORPUS):
                 spec = wfgen.gen_spec(rng, size=rng.randint(2, 12), features=feats)
             seeds = [rng.randrange(1 << 30) for _ in range(k)]
-            runs = wfcheck.run_schedules(spec, seeds, ctx.scratch, timeout=30.0)
+            runs = wfcheck.run_schedules(spec, seeds, ctx.scratch, timeout=30.0, stop_on_hang=True)
             den = wfgen.py_den(spec)
             ntok = sum(len(v) for v in den.values())
             key = ("wf", json.dumps(spec, sort_keys=True)) if len(spec["nodes"]) >= 3 and ntok >= 5 else None
@@ -191,7 +191,7 @@ class C05(Property):
             return super().replay(ctx, data)
         spec = r["spec"]
         seeds = [s for s in r.get("seeds", [1, 2, 3]) if s] or [1, 2, 3]
-        runs = wfcheck.run_schedules(spec, seeds, ctx.scratch, timeout=30.0)
+        runs = wfcheck.run_schedules(spec, seeds, ctx.scratch, timeout=30.0, stop_on_hang=True)
         g = ctx.lean("Drivers/Net.lean", [f"den {wfcheck.spec_words(spec)}"])[0]
         head, rest = wfcheck.split_den_answer(g)
         print("spec :", json.dumps(spec))
